@@ -296,6 +296,59 @@ Definition closest_call (tp : list tok) (fill : list (key * str)) (fs : list fil
   (xtimes : list (Z * Z)) (t : Z) (f : option filters) : option nat :=
   closest_model tp fill fs (with_filters xnames xtimes f) t.
 
+(* ------------------------------------------------------------------ a filters dict with several entries
+
+   FileSet.find splits the dict the caller passes:
+       white_list = {f: v for f, v in filters.items() if not f.startswith("!")}      (each value: one regex or a list)
+       black_list = {f.lstrip("!"): convert(v) for f, v in filters.items() if f.startswith("!")}
+   and a file is yielded when its path matches the template with EVERY white-listed placeholder restricted to its
+   values, and FileSet._check_file(black_list, attr) finds no black-listed placeholder filled with a forbidden value:
+       for placeholder, forbidden in black_list.items():
+           value = placeholders.get(placeholder, None)
+           if value is None: continue
+           if forbidden.match(value): return False
+       return True
+   An entry of the dict: (true, k, vs) is the key "!k", (false, k, vs) the key "k"; vs = the listed values (a single
+   value v is [v]).  The entries come in the order of the dict. *)
+Definition fentry := (bool * str * list str)%type.
+Definition fdict := list fentry.
+Definition entry_neg (e : fentry) : bool := fst (fst e).
+Definition entry_list (e : fentry) : str * list str := (snd (fst e), snd e).
+Definition split_dict (d : fdict) : filters :=
+  (map entry_list (filter (fun e => negb (entry_neg e)) d), map entry_list (filter entry_neg d)).
+(* the query of a call find_closest(t, filters=d) on a fileset with the configured exclusions *)
+Definition dict_query (d : fdict) (xnames : list str) (xtimes : list (Z * Z)) : query :=
+  with_filters xnames xtimes (Some (split_dict d)).
+(* ONE entry lets a file pass (a = the file's user placeholders) *)
+Definition entry_ok (a : list (str * str)) (e : fentry) : bool :=
+  if entry_neg e then black_ok a (entry_list e) else white_ok a (entry_list e).
+
+(* the same in the vocabulary of C01's model (placeholders and values numbered) *)
+Definition zentry := (bool * Z * list Z)%type.
+Definition zentry_ok (f : F.file) (e : zentry) : bool :=
+  let '(neg, p, vs) := e in
+  match F.lookup p (F.attrs f) with
+  | Some v => if neg then negb (F.memz v vs) else F.memz v vs
+  | None => true
+  end.
+Definition zsplit (d : list zentry) : list (Z * list Z) * list (Z * list Z) :=
+  (map (fun e => (snd (fst e), snd e)) (filter (fun e => negb (fst (fst e))) d),
+   map (fun e => (snd (fst e), snd e)) (filter (fun e => fst (fst e)) d)).
+
+(* the numbering the correspondence uses to hand a tree to C01's model: the user placeholders are numbered by their
+   position in a list of (name, possible values), a value by its position among the values of its placeholder *)
+Fixpoint pos (v : str) (l : list str) : Z :=
+  match l with [] => 0 | x :: l' => if str_eqb v x then 0 else 1 + pos v l' end.
+Definition pools := list (str * list str).
+Definition pool_of (ps : pools) (k : str) : list str :=
+  match find (fun p => str_eqb k (fst p)) ps with Some p => snd p | None => [] end.
+Definition pool_kc (ps : pools) (k : str) : Z := pos k (map fst ps).
+Definition pool_vc (ps : pools) (k v : str) : Z := pos v (pool_of ps k).
+Definition pool_K (ps : pools) (k : str) : Prop := In k (map fst ps).
+Definition pool_V (ps : pools) (k v : str) : Prop := In v (pool_of ps k).
+(* no value of a placeholder is a prefix of another one (black lists are re.match, a prefix test) *)
+Definition pools_ok (ps : pools) : bool := forallb (fun p => prefix_free (snd p)) ps.
+
 (* ------------------------------------------------------------------ interface of the correspondence *)
 
 Definition tenc (a : tanswer) : Z :=
